@@ -541,7 +541,11 @@ def check_forms(c):
 def gen_pyramid_options(rng: random.Random, tier: str):
     """Image / ImageBatch.pyramid with its non-default options: finest-level `spacing`, explicit `align_corners` that differs
     from the grid's own flag, `min_size`; half of the spacing cases are built so that the requested spacing divides the extent
-    exactly and the resampled size is 2^L·k + 1 (the case where corner-to-corner and border-to-border resizing differ most)."""
+    exactly and the resampled size is 2^levels·k + 1 (the case where corner-to-corner and border-to-border resizing differ most)."""
+    # witness of the defect repaired by 8cc5ad1 (new corner-to-corner extent = old border-to-border extent)
+    yield {"grid": {"size": [11, 10], "spacing": [1.3945454545454545, 1.0619999999999998], "center": [33.483, -11.112],
+                    "direction": [[-0.9999981994616374, 0.0018976494627043535], [-0.0018976494627043535, -0.9999981994616374]],
+                    "align_corners": False}, "levels": 3, "req": True, "spacing": 1.18, "n": 1, "single": False, "seed": 96831771}
     for own in (True, False):
         for req in (None, True, False):
             for kind in ("none", "exact", "free"):
@@ -552,11 +556,12 @@ def gen_pyramid_options(rng: random.Random, tier: str):
                     spec["align_corners"] = own
                     sp = None
                     if kind == "exact":
-                        sp = round(rng.uniform(0.8, 2.5), 2)
-                        new_n = [2 ** (levels - 1) * rng.randint(2, 3) + 1 for _ in range(d)]
-                        old_n = [n + rng.choice([-2, -1, 1, 3, n]) for n in new_n]
-                        spec["size"] = old_n
-                        spec["spacing"] = [m * sp / n for m, n in zip(new_n, old_n)]
+                        # float-exact: the old spacing is sp / m (m = 2, 3, 4), the old size m times the new one
+                        sp = rng.choice([0.5, 1.0, 1.5, 2.0])
+                        new_n = [2 ** levels * rng.randint(1, 2) + 1 for _ in range(d)]     # kept by Grid.pyramid at level 0
+                        mult = [rng.choice([2, 2, 3, 4] if d == 2 else [2, 3]) for _ in range(d)]
+                        spec["size"] = [n * m for n, m in zip(new_n, mult)]
+                        spec["spacing"] = [sp / m for m in mult]
                     elif kind == "free":
                         sp = round(rng.uniform(0.4, 1.6) * min(spec["spacing"]), 3)
                     yield {"grid": spec, "levels": levels, "req": req, "spacing": sp, "n": rng.choice([1, 2]),
